@@ -142,7 +142,7 @@ func (u *UDP) SetInternalPortsForTesting() {
 }
 
 func (u *UDP) VerifyChecksum() (error, gopacket.ChecksumVerificationResult) {
-	bytes := append(u.Contents, u.Payload...)
+	bytes := headerAndPayload(u.Contents, u.Payload)
 
 	existing := u.Checksum
 	verification, err := u.computeChecksum(bytes, IPProtocolUDP)
